@@ -203,6 +203,11 @@ def run(ctx):
                 vals[jump_slot[b]] = (tgt - starts[i]) & 0xFFFFFFFF
         code = b"".join(enc(b, vals) for b, vals in instrs_k)
         strs = [b"f", b"a; b # c", b"line1\nline2\ttab \"q\" \\ back", b"", b"caf\xc3\xa9"] + [("s%d" % j).encode() for j in range(rng.randint(0, 70))]
+        # every byte value (control bytes, quotes, backslash, high bytes; NUL is cut by the pool's C strings) in front of characters that
+        # an escape syntax could swallow - hex digits, 'x', a backslash, a quote - and at the end of the string
+        follow = [b"d", b"0", b"A", b"f9", b"x41", b"\\", b"\"", b"", b" ", b"n", b"8done"]
+        fl = follow[k % len(follow)]
+        strs += [bytes([bv]) + fl for bv in range(1, 256)] + [bytes([bv]) * 3 + fl for bv in (1, 7, 8, 11, 12, 13, 15, 16, 27, 31, 127, 128, 255)]
         txt = "f=1;e=0;s=%s;c=%s;fn=0.%d.0.%d.%d.%d;d=;i=" % (",".join(common.hexs(x) for x in strs), code.hex(), rng.randint(0, 3), len(code), rng.choice([0, 3, 255, 256, 65535]), rng.choice([0, 1, 300]))
         mods.append(("synthetic-%d" % k, None, True, txt))
     ser_lines = ["nvm.ser " + mm[3] for mm in mods if mm[1] is None]
